@@ -97,7 +97,13 @@ impl Download {
 
         let download_rule = match rules.values().find(|rule| rule.name == rulename) {
             Some(x) => x,
-            None => panic!("missing {} rule for module {}", rulename, module.name),
+            None => {
+                return Err(anyhow!(
+                    "missing {} rule for module {}",
+                    rulename,
+                    module.name
+                ))
+            }
         };
 
         let ninja_download_rule = download_rule.to_ninja(env)?;
@@ -144,10 +150,16 @@ impl Download {
 
         let patch_rule = match rules.values().find(|rule| rule.name == rulename) {
             Some(x) => x,
-            None => panic!("missing {} rule for module {}", rulename, module.name),
+            None => {
+                return Err(anyhow!(
+                    "missing {} rule for module {}",
+                    rulename,
+                    module.name
+                ))
+            }
         };
 
-        let ninja_patch_rule = patch_rule.to_ninja(env).unwrap();
+        let ninja_patch_rule = patch_rule.to_ninja(env)?;
 
         // "srcdir" is filled in data.rs
         let srcdir = module.srcdir.as_ref().unwrap();
